@@ -9,7 +9,7 @@ open Rsp.TlsAttr
 /-- **C14 (TLS).** Whatever block a connection is attributed to: it is one of the configured blocks, its host list contains the
     peer's address, the peer's chain verified and its certificate meets that block's conditions -/
 theorem attribute_sound (trusted : Bool) (bs : List Blk) (b : Blk) (h : attributeTo trusted bs = some b) :
-    b ∈ bs ∧ b.addrMatch = true ∧ b.certOk = true ∧ trusted = true := by
+    b ∈ bs ∧ b.addrMatch = true ∧ b.certOk = true ∧ trusted = true ∧ b.psk = none := by
   unfold attributeTo at h
   split at h
   · cases h
@@ -22,8 +22,10 @@ theorem attribute_sound (trusted : Bool) (bs : List Blk) (b : Blk) (h : attribut
         unfold candidates at hm
         simpa [List.mem_filter] using hm
       simp only [Bool.and_eq_true, decide_eq_true_eq] at hp
-      refine ⟨hc.1, hc.2, hp.2, ?_⟩
-      cases trusted <;> simp_all
+      refine ⟨hc.1, hc.2, hp.2, ?_, ?_⟩
+      · cases trusted <;> simp_all
+      · have := hp.1.2
+        cases hb : b.psk <;> simp_all
 
 /-- traffic whose source matches no client block of the transport is attributed to nobody (and then nothing of it is parsed) -/
 theorem no_match_no_block (trusted : Bool) (bs : List Blk) (h : ∀ b ∈ bs, b.addrMatch = false) : attributeTo trusted bs = none := by
@@ -45,7 +47,7 @@ theorem untrusted_no_block (bs : List Blk) : attributeTo false bs = none := by
     certificate stands before the one chosen -/
 theorem attribute_first (trusted : Bool) (bs : List Blk) (b first : Blk) (hf : (candidates bs).head? = some first)
     (h : attributeTo trusted bs = some b) :
-    ∃ pre post, candidates bs = pre ++ b :: post ∧ ∀ c ∈ pre, ¬ (c.tls = first.tls ∧ c.certOk = true) := by
+    ∃ pre post, candidates bs = pre ++ b :: post ∧ ∀ c ∈ pre, ¬ (c.tls = first.tls ∧ c.psk = none ∧ c.certOk = true) := by
   unfold attributeTo at h
   rw [hf] at h
   simp only at h
@@ -55,7 +57,53 @@ theorem attribute_first (trusted : Bool) (bs : List Blk) (b first : Blk) (hf : (
     refine ⟨pre, post, hsplit, ?_⟩
     intro c hc hcc
     have := hpre c hc
-    simp [hcc.1, hcc.2] at this
+    simp [hcc.1, hcc.2.1, hcc.2.2] at this
+
+/-- **C14 (TLS-PSK).** Whatever block a connection made under a PSK is attributed to: it is one of the configured blocks, its host list
+    contains the peer's address, and identity and key of that block are the ones the peer used -/
+theorem psk_attribute_sound (id key : List UInt8) (bs : List Blk) (b : Blk) (h : attributePsk id key bs = some b) :
+    b ∈ bs ∧ b.addrMatch = true ∧ b.psk = some (id, key) := by
+  unfold attributePsk at h
+  split at h
+  · cases h
+  · rename_i c hc
+    split at h
+    · rename_i hk
+      cases h
+      have hm := List.mem_of_find?_eq_some hc
+      have hp := List.find?_some hc
+      have hcand : b ∈ candidates bs := by
+        unfold pskCandidates at hm
+        split at hm
+        · cases hm
+        · exact (List.mem_filter.mp hm).1
+      have hb : b ∈ bs ∧ b.addrMatch = true := by
+        unfold candidates at hcand
+        simpa [List.mem_filter] using hcand
+      refine ⟨hb.1, hb.2, ?_⟩
+      cases hpsk : b.psk with
+      | none => simp [hpsk] at hp
+      | some pk =>
+        obtain ⟨i, k⟩ := pk
+        simp [hpsk] at hp hk
+        rw [hp, hk]
+    · cases h
+
+/-- a PSK peer whose address no block lists is nobody -/
+theorem psk_no_match_no_block (id key : List UInt8) (bs : List Blk) (h : ∀ b ∈ bs, b.addrMatch = false) : attributePsk id key bs = none := by
+  unfold attributePsk pskCandidates
+  have : candidates bs = [] := by
+    unfold candidates
+    rw [List.filter_eq_nil_iff]
+    intro b hb
+    simp [h b hb]
+  rw [this]
+  rfl
+
+example : attributePsk [105] [107] [{ name := "A", tls := 0, addrMatch := true, certOk := false },
+                                   { name := "B", tls := 0, addrMatch := false, certOk := false, psk := some ([105], [107]) },
+                                   { name := "C", tls := 0, addrMatch := true, certOk := false, psk := some ([105], [107]) }] =
+          some { name := "C", tls := 0, addrMatch := true, certOk := false, psk := some ([105], [107]) } := by decide
 
 example : attributeTo true [{ name := "A", tls := 0, addrMatch := true, certOk := false }, { name := "B", tls := 0, addrMatch := false, certOk := true },
                           { name := "C", tls := 0, addrMatch := true, certOk := true }] =
